@@ -350,9 +350,6 @@ func (w *World) Expect(c Case, s Settings, replayed bool) Verdict {
 	}
 	// address requirements
 	if len(c.CAddr) > 0 {
-		if s.ClientAddr == nil {
-			v.Judged, v.Why = false, "ticket carries addresses but the service has no client address configured (no configured requirement to evaluate)"
-		}
 		if s.ClientAddr == nil || !containsAddr(c.CAddr, *s.ClientAddr) {
 			return rej("bad-address")
 		}
@@ -424,6 +421,9 @@ func Catalogue(skew time.Duration) []Defect {
 		{"tkt-kvno-1", func(c *Case) { c.TktKVNO = 1 }},
 		{"tkt-kvno-9-absent", func(c *Case) { c.TktKVNO = 9 }},
 		{"tkt-kvno-omitted", func(c *Case) { c.TktKVNO = 0 }},
+		{"tkt-kvno-257-key-of-kvno1", func(c *Case) { c.TktKVNO = 257; c.TktKeyOf = "svc1" }},
+		{"tkt-kvno-258-key-of-kvno2", func(c *Case) { c.TktKVNO = 258 }},
+		{"tkt-kvno-65538", func(c *Case) { c.TktKVNO = 65538 }},
 		{"tkt-etype-label-other", func(c *Case) { c.TktLabel = otherLabel(c.Etype) }},
 		{"tkt-realm-other", func(c *Case) { c.TktRealm = "OTHER.REALM" }},
 		{"tkt-sname-other-service", func(c *Case) { c.TktSName = []string{"HTTP", OtherHost} }},
@@ -463,6 +463,9 @@ func Catalogue(skew time.Duration) []Defect {
 		{"auth-cname-type-only", func(c *Case) { c.ACNameType = 2 }},
 		{"auth-crealm-changed", func(c *Case) { c.ACRealm = "EVIL.REALM" }},
 		{"tkt-cname-two-components", func(c *Case) { c.CName = []string{"user1", "admin"} }},
+		{"cname-same-text-other-split", func(c *Case) { c.CName = []string{"user1", "admin"}; c.ACName = []string{"user1/admin"} }},
+		{"cname-same-text-other-split-2", func(c *Case) { c.CName = []string{"user1/admin"}; c.ACName = []string{"user1", "admin"} }},
+		{"tkt-sname-joined-component", func(c *Case) { c.TktSName = []string{"HTTP/" + SvcHost} }},
 		{"both-cnames-empty", func(c *Case) { c.CName = []string{}; c.ACName = []string{} }},
 		{"tkt-crealm-other-both", func(c *Case) { c.CRealm = "TRUSTED.REALM"; c.ACRealm = "TRUSTED.REALM" }},
 		{"caddr-matching", func(c *Case) { c.CAddr = []krbmsg.HostAddress{AddrMatch} }},
